@@ -252,6 +252,49 @@ type world struct {
 	wantU   []int
 	nextH   int
 	hookBad []string
+
+	closedObj map[*symbol.Symbol]bool // objects whose node has been closed
+	alias     map[string]string       // rewritten `ins` line -> pool key of the original definition
+
+	// refusing hooks (`mode refuse u a sym once code`): u = unload hook, a = runs after the
+	// observing hooks, refuses symbol sym (once / always) with error E<code>
+	refusals []*refusal
+}
+
+type refusal struct {
+	unload, after bool
+	sym           int
+	once          bool
+	code          int
+	fired         bool
+}
+
+const respDropped = 63 // a responder with this Resp answers packet.ErrDroppedPacket
+// respClosed: the symbol's node had been closed before this insertion (the same *Symbol object was
+// inserted before and freed / replaced / closed): its in-port answers every packet with
+// packet.ErrDroppedPacket and the node never sees the request.
+const respClosed = 62
+
+// refuse: the refusing hook at position (unload, after) is called for sb.
+func (w *world) refuse(unload, after bool, sb *symbol.Symbol) error {
+	c := w.code(sb.ID())
+	for _, r := range w.refusals {
+		if r.unload == unload && r.after == after && r.sym == c && !(r.once && r.fired) {
+			r.fired = true
+			t := 0
+			if unload {
+				t += 2
+			}
+			if after {
+				t++
+			}
+			w.mu.Lock()
+			w.log = append(w.log, ev{k: 'X', subj: c, tgt: t})
+			w.mu.Unlock()
+			return errOf(r.code)
+		}
+	}
+	return nil
 }
 
 // errs: the error a failing responder k answers with. Built once (responders answer from their
@@ -322,6 +365,19 @@ func (w *world) table() *symbol.Table {
 			w.wantU = append(w.wantU, u)
 		}
 		tos = append(tos, to)
+	}
+	if len(w.refusals) > 0 {
+		// LoadHooks.Load runs in registration order, UnloadHooks.Unload in reverse: the hooks of the
+		// first option run before the observing load hooks and AFTER the observing unload hooks
+		first := symbol.TableOption{
+			LoadHooks:   []symbol.LoadHook{symbol.LoadFunc(func(sb *symbol.Symbol) error { return w.refuse(false, false, sb) })},
+			UnloadHooks: []symbol.UnloadHook{symbol.UnloadFunc(func(sb *symbol.Symbol) error { return w.refuse(true, true, sb) })},
+		}
+		last := symbol.TableOption{
+			LoadHooks:   []symbol.LoadHook{symbol.LoadFunc(func(sb *symbol.Symbol) error { return w.refuse(false, true, sb) })},
+			UnloadHooks: []symbol.UnloadHook{symbol.UnloadFunc(func(sb *symbol.Symbol) error { return w.refuse(true, false, sb) })},
+		}
+		tos = append(append([]symbol.TableOption{first}, tos...), last)
 	}
 	w.tbl = symbol.NewTable(tos...)
 	return w.tbl
@@ -493,6 +549,9 @@ func (w *world) obtain(d *SymDef) *symbol.Symbol {
 		w.pool = map[string]*symbol.Symbol{}
 	}
 	key := d.line()
+	if k, ok := w.alias[key]; ok {
+		key = k // a line rewritten by `effective`: the object of the original definition
+	}
 	if sb, ok := w.pool[key]; ok {
 		w.reused++
 		return sb
@@ -500,6 +559,37 @@ func (w *world) obtain(d *SymDef) *symbol.Symbol {
 	sb := w.build(d)
 	w.pool[key] = sb
 	return sb
+}
+
+// effective rewrites an `ins` line of a case that re-uses objects: when the object it is going to
+// insert has a node that is closed already, or will be closed by this very Insert (the object is the
+// table's current symbol of that id), the definition the model gets says so (Resp = respClosed).
+func (w *world) effective(line string) string {
+	f := strings.Fields(line)
+	if !w.reuse || len(f) == 0 || f[0] != "ins" {
+		return line
+	}
+	d, err := parseIns(f[1:])
+	if err != nil || (d.Kind != kOneToOne && d.Kind != kOneToN) || d.Resp == respClosed {
+		return line
+	}
+	key := d.line()
+	sb, ok := w.pool[key]
+	if !ok {
+		return line
+	}
+	w.mu.Lock()
+	closed := w.closedObj[sb]
+	w.mu.Unlock()
+	if l, live := w.cur[d.ID]; closed || (live && l.sb == sb) {
+		d.Resp = respClosed
+		if w.alias == nil {
+			w.alias = map[string]string{}
+		}
+		w.alias[d.line()] = key
+		return d.line()
+	}
+	return line
 }
 
 func (w *world) build(d *SymDef) *symbol.Symbol {
@@ -515,6 +605,10 @@ func (w *world) build(d *SymDef) *symbol.Symbol {
 	sb := &symbol.Symbol{Spec: meta}
 	me := d.ID
 	answer := func(in *packet.Packet) *packet.Packet {
+		if d.Resp == respClosed {
+			// stands for a closed node (a replayed case): answers like one, unseen
+			return packet.New(packet.ErrDroppedPacket)
+		}
 		from := -1
 		if v := types.Lookup(in.Payload(), "id"); v != nil {
 			if k, ok := w.idKey[fmt.Sprint(types.InterfaceOf(v))]; ok {
@@ -524,6 +618,9 @@ func (w *world) build(d *SymDef) *symbol.Symbol {
 		w.mu.Lock()
 		w.log = append(w.log, ev{k: 'r', subj: from, tgt: me})
 		w.mu.Unlock()
+		if d.Resp == respDropped {
+			return packet.New(packet.ErrDroppedPacket)
+		}
 		if d.Resp != 0 {
 			return packet.New(types.NewError(errOf(d.Resp)))
 		}
@@ -532,6 +629,10 @@ func (w *world) build(d *SymDef) *symbol.Symbol {
 	onClose := func() {
 		w.mu.Lock()
 		w.log = append(w.log, ev{k: 'C', subj: me})
+		if w.closedObj == nil {
+			w.closedObj = map[*symbol.Symbol]bool{}
+		}
+		w.closedObj[sb] = true
 		w.mu.Unlock()
 	}
 	switch d.Kind {
@@ -569,6 +670,8 @@ func showErr(err error) string {
 	for _, l := range strings.Split(err.Error(), "\n") {
 		if strings.HasPrefix(l, "E") {
 			cs = append(cs, l[1:])
+		} else if l == packet.ErrDroppedPacket.Error() {
+			cs = append(cs, strconv.Itoa(respDropped))
 		} else {
 			cs = append(cs, "?"+l)
 		}
@@ -798,6 +901,11 @@ func blocksOf(evs []ev) [][]string {
 		if e.k == 'C' {
 			subj = "" // a close is a block of its own
 		}
+		if e.k == 'X' {
+			toks = append(toks, [2]string{subj, fmt.Sprintf("X%d%d:%d", e.tgt/2, e.tgt%2, e.subj)})
+			i++
+			continue
+		}
 		toks = append(toks, [2]string{subj, fmt.Sprintf("%c%d", e.k, e.subj)})
 		i++
 	}
@@ -977,6 +1085,11 @@ func flowTargets(cur map[int]*live, d *SymDef, ph int) (ts []int, fails []int) {
 			t := resolveRef(cur, d, r)
 			if t != nil && t.NS == d.NS && has(insOf(t.Kind), r.Port) && !seen[t.ID] {
 				seen[t.ID] = true
+				if t.Resp == respClosed {
+					// a closed node: not seen by the node, answered with a dropped packet
+					fails = append(fails, respDropped)
+					continue
+				}
 				ts = append(ts, t.ID)
 				if t.Resp != 0 {
 					fails = append(fails, t.Resp)
